@@ -225,6 +225,7 @@ func profileFor(prop string) Profile {
 	case "C05":
 		p.Probe = "memcheck"
 		p.Reload, p.AdminRelease = true, true
+		p.Reserve = true // an administrator's labelled FloatingIP objects change the tables through watch events
 		p.Ranges = true // multi-IP requests: the rollback path of AllocateInSubnetsAndIPRange is part of "every operation"
 		p.Ops = [2]int{6, 18}
 	case "C06":
